@@ -107,7 +107,7 @@ def main(ck):
     ex.append(dict(history=ops, max_preemptions=maxpre, schedules=r['runs'], complete=bool(r['complete'])))
     ck.evaluations += r['runs']
     ck.nontrivial.update('%s/%d/%d' % (ops, maxpre, i) for i in range(min(r['runs_with_preemption'], 50)))
-  ck.extra['exhaustive'] = ex
+  ck.extra['exhaustive_configs'] = ex
   ck.extra['exhaustive_runs'] = total
   drv.close()
 
